@@ -91,6 +91,18 @@ class Prov:
         """Set of (label, witness-chain)."""
         if depth > self.MAX_DEPTH:
             return {("UNKNOWN", chain + ("depth bound",))}
+        if getattr(self, "_bind", None):
+            # inside a helper evaluated for one particular call (its parameters stand for that call's arguments): no memo, but
+            # cycles are cut as usual
+            bkey = (id(e), fc.fn, fc.selfcls, tuple(id(b[1]) for b in self._bind))
+            if bkey in self._active:
+                self._cuts += 1
+                return set()
+            self._active.add(bkey)
+            try:
+                return self._origin(e, fc, depth, chain)
+            finally:
+                self._active.discard(bkey)
         key = (id(e), fc.fn, fc.selfcls)
         if key in self._memo:
             return self._memo[key]
@@ -151,6 +163,8 @@ class Prov:
             for v in e.values:
                 out |= self.origin(v, fc, depth + 1, ch)
             return out
+        if isinstance(e, ast.NamedExpr):
+            return self.origin(e.value, fc, depth + 1, ch)
         if isinstance(e, ast.IfExp):
             return self.origin(e.body, fc, depth + 1, ch) | self.origin(e.orelse, fc, depth + 1, ch)
         if isinstance(e, ast.Subscript):
@@ -208,6 +222,9 @@ class Prov:
                                     out |= comp if comp is not None else self.origin(n.value, fc, depth + 1, ch)
             elif isinstance(n, ast.AugAssign) and isinstance(n.target, ast.Name) and n.target.id == e.id:
                 assigned = True
+                out |= self.origin(n.value, fc, depth + 1, ch)
+            elif isinstance(n, ast.NamedExpr) and isinstance(n.target, ast.Name) and n.target.id == e.id:
+                assigned = True   # walrus: (name := value)
                 out |= self.origin(n.value, fc, depth + 1, ch)
             elif isinstance(n, ast.Expr) and isinstance(n.value, ast.Call) and isinstance(n.value.func, ast.Attribute) \
                     and n.value.func.attr in ("append", "extend", "add", "insert") and isinstance(n.value.func.value, ast.Name) \
@@ -299,6 +316,14 @@ class Prov:
         return None
 
     def _param(self, f, pname, fc, depth, ch):
+        bind = getattr(self, "_bind", None)
+        if bind and bind[-1][0] is f and pname in bind[-1][1]:
+            arg, afc = bind[-1][1][pname]
+            top = bind.pop()   # the argument is evaluated in the caller's context
+            try:
+                return self.origin(arg, afc, depth + 1, ch + ("<- argument %s" % pname,))
+            finally:
+                bind.append(top)
         out = set()
         a = f.node.args
         ann = None
@@ -545,6 +570,22 @@ class Prov:
                 selfcls = callee.cls
                 if callee.name in ("__init__", "__new__") and callee.cls is not None:
                     out.add(("CONST", ch))  # object construction: not a string value
+                    continue
+                # a small stateless helper (module-level function / static method) is evaluated for this call: its parameters
+                # stand for this call's arguments, not for the arguments of every caller (`_last_unused_name("rId%d", ...)`)
+                small = (callee.cls is None or callee.kind == "staticmethod") and len(list(ast.walk(callee.node))) < 400 \
+                    and not any(isinstance(x, ast.Starred) for x in e.args) and depth < 25 and len(getattr(self, "_bind", None) or []) < 3
+                if small:
+                    ps = [x.arg for x in callee.node.args.posonlyargs + callee.node.args.args]
+                    b = {p_: (a_, fc) for p_, a_ in zip(ps, e.args)}
+                    b.update({k.arg: (k.value, fc) for k in e.keywords if k.arg})
+                    if not hasattr(self, "_bind") or self._bind is None:
+                        self._bind = []
+                    self._bind.append((callee, b))
+                    try:
+                        out |= self._returns(callee, selfcls, depth, ch)
+                    finally:
+                        self._bind.pop()
                     continue
                 out |= self._returns(callee, selfcls, depth, ch)
             elif isinstance(callee, tuple) and callee and callee[0] == "gen":
